@@ -808,6 +808,9 @@ def evaluate_queries(ctx, cases, results, name='c16_bp'):
         groups.append(bgroup_term(r['table'], ok_qs))
         meta.append((c, r))
     agree, spec = eval_both(ctx, name, BDEFS, groups, 'chk', 'spc', shard=45)
+    # the same queries through the regenerated update_breakpoints_* functions (PyIR.exec in Coq)
+    from .. import breakpoints_source
+    breakpoints_source.compare(ctx, HEADER + BDEFS, groups, [len([q for q in r['queries'] if not q.get('exc')]) for _, r in meta])
     # isolate the failing query of a failing group
     terms, tmeta = [], []
     for (c, r), a, s in zip(meta, agree, spec):
@@ -840,7 +843,11 @@ def evaluate_queries(ctx, cases, results, name='c16_bp'):
 
 
 def run(ctx):
-    fw.static_proofs(ctx, ['Properties/C16.v'])
+    # T-gen for the breakpoint part of Model/Labels.v: the update_breakpoints_* functions are re-translated from the current
+    # source into the IR of Model/PyIR.v and proved equal to the hand model (Tie/Breakpoints_tie.v, Properties/C16_source.v)
+    from .. import breakpoints_source
+    src_props, src_targets = breakpoints_source.prepare(ctx)
+    fw.static_proofs(ctx, ['Properties/C16.v'] + src_props, extra_targets=src_targets)
     rng = ctx.rng
     cases = (directed_cases() + [gen_case(rng) for _ in range(ctx.n(700, 8000))] +
              [gen_case(rng, invalid=True) for _ in range(ctx.n(160, 2000))])
